@@ -299,3 +299,12 @@ def run(project, chk):
         chk.check(early and not before, "N2", fi.short, norm_text(first_cond.ast) if first_cond is not None else "", project.loc(fi.module, first_cond.ast if first_cond is not None else fi.node),
                   "the validity test is the first thing the method does", how="first condition node tests self.is_valid; no statement precedes it",
                   message="work is done before the validity short-circuit")
+
+
+_run_own = run
+
+
+def run(project, chk):      # noqa: F811  (borrowed rules first: an established violation outlives a later inconclusive rule)
+    from checks._borrow import borrow
+    borrow(project, chk, "C12", {"B1"}, "E6", "'the bulk API reports that entry as invalid and carries on with the rest': one result per entry on every path, the entry loop is never left early (C12's path rule)")
+    _run_own(project, chk)
